@@ -23,8 +23,12 @@ def ofVal : Val → Json
   | .num q => ofRat q
   | .nan => Json.str "nan"
 
-def jIter (tol : Option Rat) (j : Json) : R (Iter Val) := do
+def jIter (linear : Bool) (tol : Option Rat) (j : Json) : R (Iter Val) := do
   let inc ← field j "inc" >>= jVal
+  if linear then
+    let (c, d) := checkConvLinear inc
+    pure ⟨inc, c, d⟩
+  else
   match tol with
   | some t =>
     let (c, d) := checkConv t inc
@@ -64,14 +68,21 @@ def runOp (j : Json) : R Json := do
   if op != "run" then throw s!"unknown op {op}" else
   let p ← field j "tm" >>= jParams
   let cfg : Cfg := { maxIt := ← fNat j "max_it", nIt := ← fNat j "n_it", nTs := ← fNat j "n_ts",
-                     divOverrules := ← fBool j "div_overrules" }
+                     divOverrules := ← fBool j "div_overrules",
+                     linear := ← (jBool (fieldD j "linear" (Json.bool false))) }
   let v0 ← field j "init" >>= jVal
   let tol ← field j "check_tol" >>= jOpt jRat
-  let tapes ← field j "tapes" >>= jList (jList (jIter tol))
+  let tapes ← field j "tapes" >>= jList (jList (jIter cfg.linear tol))
+  -- the decidable hypotheses of `ends_at_final_time_or_raises_tm`, evaluated on this case
+  let hyp := obj [("admissible", Json.bool (decide (PorepyVerif.C09.Admissible p))), ("dtmin_pos", Json.bool (decide (0 < p.dtMin))),
+    ("nonlinear", Json.bool (!cfg.linear)), ("windows", Json.bool (decide (0 < cfg.nIt ∧ 0 < cfg.nTs))),
+    ("tapes_long", Json.bool (tapes.all (fun t => decide (cfg.maxIt < t.length)))),
+    ("bound", Json.bool (decide (((p.recompMax : Rat) + 1) *
+        ((p.timeFinal - p.timeInit) + p.dtMin * ((p.schedule.length - 1 : Nat) : Rat)) ≤ p.dtMin * (tapes.length : Rat))))]
   let clk := tmClock p
   let r := runAll clk cfg (startRun clk cfg v0 (PorepyVerif.C09.init p)) tapes
   let (st, e) := statusName r.status
   pure (obj ([("events", ofList ofEv r.log), ("status", Json.str st), ("err", e), ("last", Json.str (lastName r.last)),
-              ("accepted", ofList ofVal r.accepted), ("acceptedT", ofRats r.acceptedT)] ++ clockFields r.clock))
+              ("accepted", ofList ofVal r.accepted), ("acceptedT", ofRats r.acceptedT), ("hyp", hyp)] ++ clockFields r.clock))
 
 def main : IO Unit := runPure runOp
